@@ -320,9 +320,11 @@ impl Range {
 
     pub fn _parse_multipart_body(cursor: &mut Cursor<&[u8]>, mut content_range_list: Vec<ContentRange>) -> Result<Vec<ContentRange>, String> {
 
+      // one iteration per part (a call per part exhausted the stack on bodies with thousands of parts)
+      loop {
         let mut buffer = Range::_parse_line_as_bytes(cursor);
         let new_line_char_found = buffer.len() != 0;
-        let mut string = Range::_convert_bytes_array_to_string(buffer);
+        let mut string = Range::convert_bytes_array_to_string(buffer)?;
 
         if !new_line_char_found {
             return Ok(content_range_list)
@@ -341,7 +343,7 @@ impl Range {
         if string.starts_with(separator.as_str()) && content_range_is_not_parsed {
             //read next line - Content-Type
             buffer = Range::_parse_line_as_bytes(cursor);
-            string = Range::_convert_bytes_array_to_string(buffer);
+            string = Range::convert_bytes_array_to_string(buffer)?;
         }
 
         let content_type_is_not_parsed = content_range.content_type.len() == 0;
@@ -351,7 +353,7 @@ impl Range {
 
             //read next line - Content-Range
             buffer = Range::_parse_line_as_bytes(cursor);
-            string = Range::_convert_bytes_array_to_string(buffer);
+            string = Range::convert_bytes_array_to_string(buffer)?;
         }
 
         let content_range_is_not_parsed = content_range.size.len() == 0;
@@ -373,7 +375,7 @@ impl Range {
 
             // read next line - empty line
             buffer = Range::_parse_line_as_bytes(cursor);
-            string = Range::_convert_bytes_array_to_string(buffer);
+            string = Range::convert_bytes_array_to_string(buffer)?;
 
             if string.trim().len() > 0 {
                 return Err(Range::_ERROR_NO_EMPTY_LINE_BETWEEN_CONTENT_RANGE_HEADER_AND_BODY.to_string());
@@ -381,7 +383,7 @@ impl Range {
 
             // read next line - separator between content ranges
             buffer = Range::_parse_line_as_bytes(cursor);
-            string = Range::_convert_bytes_array_to_string(buffer);
+            string = Range::convert_bytes_array_to_string(buffer)?;
         }
 
         let content_range_is_parsed = content_range.size.len() != 0;
@@ -415,13 +417,7 @@ impl Range {
             content_range_list.push(content_range);
         }
 
-        let boxed_result = Range::_parse_multipart_body(cursor, content_range_list);
-        return if boxed_result.is_ok() {
-            Ok(boxed_result.unwrap())
-        } else {
-            let error = boxed_result.err().unwrap();
-            Err(error)
-        }
+      }
 
     }
 
@@ -546,6 +542,9 @@ impl Range {
                                 mut content_range_list: Vec<ContentRange>)
         -> Result<Vec<ContentRange>, String> {
 
+      // one iteration per part, and the following parts are read by this function as well
+      // (they were handed to the unchecked _parse_multipart_body, which panics on bytes that are not UTF-8)
+      loop {
         let boxed_line = Range::parse_line_as_bytes(cursor);
         if boxed_line.is_err() {
             let message = boxed_line.err().unwrap();
@@ -705,13 +704,7 @@ impl Range {
             content_range_list.push(content_range);
         }
 
-        let boxed_result = Range::_parse_multipart_body(cursor, content_range_list);
-        return if boxed_result.is_ok() {
-            Ok(boxed_result.unwrap())
-        } else {
-            let error = boxed_result.err().unwrap();
-            Err(error)
-        }
+      }
 
     }
 
